@@ -193,6 +193,10 @@ pub struct ServerCfg {
     /// record, after every handler call, which cache entries are physically
     /// held (hook snapshot at rewound clock; expiry family)
     pub record_held: bool,
+    /// with record_held: take the snapshot only after every n-th arrival
+    /// (0/1 = every arrival) and after every arrival from `held_always_from`
+    pub held_every: u32,
+    pub held_always_from: Ep,
 }
 
 pub struct Server {
@@ -564,7 +568,7 @@ impl Server {
         }
 
         #[cfg(feature = "hooks")]
-        if self.cfg.record_held {
+        if self.cfg.record_held && (self.cfg.held_every <= 1 || from == self.cfg.held_always_from || seq as u32 % self.cfg.held_every == 0) {
             let held = self.snapshot_held().into_iter().map(|e| (e.requester.unwrap_or(0), e.request_type_ord, e.path)).collect();
             self.held_log.push((seq, held));
         }
@@ -771,7 +775,8 @@ impl Server {
                     // None -> Some(empty) is "unchanged" (no data held)
                     let same = match (before, after) {
                         (None, None) => true,
-                        (None, Some((0, _))) => true,
+                        // no data held either way
+                        (None, Some((0, _))) | (Some((0, _)), None) => true,
                         (Some(x), Some(y)) => x == y,
                         _ => false,
                     };
